@@ -31,7 +31,7 @@ INSTANCE_ALPHA = gen.LABEL_ALPHABET + '..()!@'
 VIOLATIONS = ['drop_underscore', 'ins_char', 'lead_hyphen', 'trail_hyphen', 'double_hyphen', 'digits_only', 'len16', 'len15',
               'len1', 'empty_body', 'bad_proto', 'no_local', 'no_trailing_dot', 'inst64', 'inst63', 'inst_ctrl', 'pad256',
               'pad257', 'empty_sub', 'leading_dot', 'underscore_in_body', 'trail_newline', 'upper_suffix', 'empty_label_in_instance',
-              'long_service']
+              'long_service', 'newline_after_name']
 
 
 @st.composite
@@ -124,6 +124,8 @@ def name_case(draw) -> Dict[str, Any]:
             want = 256 if v == 'pad256' else 257
             if len(s) < want:
                 s = assemble(body + 'a' * (want - len(s)))
+    if 'newline_after_name' in viol:
+        s = s + draw(st.sampled_from(['\n', '\n', '\r\n', ' ']))      # something behind the final dot (a line read from a file)
     return {'kind': 'name', 's': s, 'strict': strict, 'viol': viol}
 
 
